@@ -162,7 +162,7 @@ func funcInfoOf(name string) funcInfo {
 //@   ensures[C05] next-line-same-block: specBlockBefore(c) == specBlock(c)
 //
 //@ func (*converter).nextHelperVar
-//@   ensures[C05,C10] fresh-name: result == specHelperName(old(c.varCounter)) && c.varCounter == old(c.varCounter) + 1
+//@   ensures[C05,C10,C14] fresh-name: result == specHelperName(old(c.varCounter)) && c.varCounter == old(c.varCounter) + 1
 //@   ensures[C05,C14] frame: sameExcept(c, old(c), "varCounter")
 //
 //@ func (*converter).varName
@@ -354,7 +354,11 @@ func funcInfoOf(name string) funcInfo {
 //@ func (*converter).ReadFile
 //@   ensures[C16,C17] helper-flagged: c.readHelperRequired && err == nil
 //
+// A slice literal: the storage counter is bumped with run-time (!..!) expansion, a fresh helper
+// gets the storage name, its length is set, then one element line per value follows.
 //@ func (*converter).SliceInstantiation
+//@   loop @"range values" invariant[C03,C05] storage-lines-kept: routeOK(c) && specBlockBefore(c) == specBlock(c) && len(specBlock(c)) == len(old(specBlockBefore(c))) + 4 + rangeindex && specBlock(c)[len(old(specBlockBefore(c)))] == "set /A \"_dvc=!_dvc!+1\"" && specBlock(c)[len(old(specBlockBefore(c))) + 1] == specSet(specName(len(c.funcs) > 0, c.funcCounter, specHelperName(old(c.varCounter)), false), "_dv!_dvc!") && specBlock(c)[len(old(specBlockBefore(c))) + 2] == "call :_sls " + specRef(specName(len(c.funcs) > 0, c.funcCounter, specHelperName(old(c.varCounter)), false)) + " " + itoa(len(values)) && c.varCounter == old(c.varCounter) + 1 && c.funcs == old(c.funcs) && c.funcCounter == old(c.funcCounter)
+//@   ensures[C03,C05] counter-then-storage-then-length-then-elements: len(specBlock(c)) == len(old(specBlockBefore(c))) + 3 + len(values) && specBlock(c)[len(old(specBlockBefore(c)))] == "set /A \"_dvc=!_dvc!+1\"" && specBlock(c)[len(old(specBlockBefore(c))) + 1] == specSet(specName(len(c.funcs) > 0, c.funcCounter, specHelperName(old(c.varCounter)), false), "_dv!_dvc!") && specBlock(c)[len(old(specBlockBefore(c))) + 2] == "call :_sls " + specRef(specName(len(c.funcs) > 0, c.funcCounter, specHelperName(old(c.varCounter)), false)) + " " + itoa(len(values)) && result0 == specRef(specName(len(c.funcs) > 0, c.funcCounter, specHelperName(old(c.varCounter)), false)) && c.varCounter == old(c.varCounter) + 1
 //@   ensures[C16] helper-flagged: c.sliceAssignmentHelperRequired && err == nil
 //
 //@ func (*converter).FuncStart
@@ -432,6 +436,7 @@ func specCommand(name string, n int, words string) string {
 //@   ensures[C18] commands-in-order-joined-by-pipes: calls(strings_Join) >= len(calls) + 1 && arg(strings_Join, len(calls), 1) == " | " && len(arg(strings_Join, len(calls), 0)) == len(calls) && forall(k, 0, len(calls), arg(strings_Join, k, 1) == " " && len(arg(strings_Join, k, 0)) == len(calls[k].args) && forall(i, 0, len(calls[k].args), arg(strings_Join, k, 0)[i] == specWord(calls[k].args[i])) && arg(strings_Join, len(calls), 0)[k] == specCommand(calls[k].name, len(calls[k].args), res(strings_Join, k, 0)))
 //@   ensures[C18] statement-form-runs-the-pipeline: !valueUsed ==> appended(specBlock(c), old(specBlockBefore(c)), "call " + res(strings_Join, calls(strings_Join) - 1, 0)) && len(result0) == 3 && result0[0] == "" && result0[1] == "" && result0[2] == "0" && err == nil
 //@   ensures[C16,C18] value-form-flags-the-capture-helper: valueUsed ==> c.appCallHelperRequired
+//@   ensures[C16,C18] statement-form-needs-no-capture-helper: !valueUsed ==> c.appCallHelperRequired == old(c.appCallHelperRequired) && c.lfSet == old(c.lfSet)
 
 // ----------------------------------------------------------------------------
 // Pinned helper routines (C03/C05/C16/C17): the body of each routine as reviewed against the
